@@ -97,8 +97,24 @@ func c17Fill(e *Env) {
 	st, _ := kvT.Underlying().(*types.Struct)
 	info := p.TypesInfo
 	n := 0
+	// the slot allocator, by shape: func([]argsKV) ([]argsKV, *argsKV) in package protocol
+	isSlotAlloc := func(f *types.Func) bool {
+		if f == nil || f.Pkg() != p.Types {
+			return false
+		}
+		sig, _ := f.Type().(*types.Signature)
+		if sig == nil || sig.Recv() != nil || sig.Params().Len() != 1 || sig.Results().Len() != 2 {
+			return false
+		}
+		sl, ok := sig.Params().At(0).Type().Underlying().(*types.Slice)
+		if !ok || !types.Identical(sig.Results().At(0).Type(), sig.Params().At(0).Type()) {
+			return false
+		}
+		pt, ok := sig.Results().At(1).Type().(*types.Pointer)
+		return ok && types.Identical(pt.Elem(), sl.Elem())
+	}
 	for _, fi := range declaredNonTest(w) {
-		if fi.Pkg != p || fi.Decl.Body == nil || fi.Obj.Name() == "allocArg" {
+		if fi.Pkg != p || fi.Decl.Body == nil || isSlotAlloc(fi.Obj) {
 			continue
 		}
 		// kv variable assigned from allocArg
@@ -106,7 +122,7 @@ func c17Fill(e *Env) {
 		ast.Inspect(fi.Decl.Body, func(nd ast.Node) bool {
 			if as, ok := nd.(*ast.AssignStmt); ok && len(as.Rhs) == 1 && len(as.Lhs) == 2 {
 				if c, ok := unparen(as.Rhs[0]).(*ast.CallExpr); ok {
-					if f := calleeOf(info, c); f != nil && f.Name() == "allocArg" && f.Pkg() == p.Types {
+					if f := calleeOf(info, c); isSlotAlloc(f) {
 						kv = usedVar(info, as.Lhs[1])
 					}
 				}
